@@ -105,6 +105,7 @@ def h_custom(run, cfg):
 
 
 HARNESSES = {'ledger': h_ledger, 'custom': h_custom}
+DECIMAL_REPLAYS = {'quick': 2, 'thorough': 4}      # witnesses also replayed on two-decimal inputs (solver models are dyadic: floats exact there)
 WITNESS_CAP = {'quick': 120, 'thorough': 300}
 
 
